@@ -500,7 +500,7 @@ def warping_paths(s1, s2, psi_neg=True, keep_int_repr=False, **kwargs):
                 dtw[ir:ir-mir:-1, ic] = -1
             d = vr_mir
         else:
-            if psi_neg:
+            if psi_neg and psi_2e != 0:
                 dtw[ir, ic:ic-mic:-1] = -1
             d = vc_mic
     if keep_int_repr:
